@@ -2,7 +2,7 @@
 
 import numpy as np
 
-from .. import core, gen_params, oracle_hydraulics as oh
+from .. import argforms, core, gen_params, oracle_hydraulics as oh
 
 PROPERTY = 'C15'
 LEVEL = 'exploration'
@@ -11,7 +11,7 @@ RULE = (
     'G-params: 2-7 strictly increasing knots (spacing 1-1000 mm), conductivities over 11 decades (monotone, arbitrary, '
     'and narrow-spike sets: one knot 4-11 decades above its neighbours), T_min 1e-3..1e2, built by the real '
     'create_transmissivity_function; levels below / at the lowest knot, between knots, one ulp and 1e-9 beside knots, '
-    'at every knot including the highest; Python floats, numpy scalars, lists and arrays in sorted and in arbitrary order.  Oracle: closed form '
+    'at every knot including the highest; Python floats, numpy scalars, lists and arrays in sorted and in arbitrary order, and the same levels in every container form of spowtd_verif/argforms.py (tuples, read-only / reversed / strided / big-endian arrays, Python ints, int64 and int32 arrays; argument unchanged, second evaluation of the same object identical).  Oracle: closed form '
     'T_min + sum K_j expm1(s d)/s per log-linear segment (1e-9 relative); T = T_min at and below the lowest knot; '
     'non-decreasing over the sorted levels; continuity across knots; array == scalar results.  Non-trivial: level '
     'above >= 2 knots with a conductivity ratio >= 100 between neighbours; distinct by (parameter digest, level).'
@@ -26,6 +26,9 @@ REQUIRED = {
         'levels-beside-a-knot': 500,
         'monotonicity-pairs': 3000,
         'array-vs-scalar': 200,
+        'argument-forms-vs-scalar': 200,
+        'argument-forms-vs-scalar:int64-array': 100,
+        'argument-forms-vs-scalar:read-only-array': 200,
         'shuffled-array-vs-scalar': 200,
         'integer-levels': 200,
         'narrow-spike-sets': 40,
@@ -138,6 +141,10 @@ def check_set(ctx, rng, params, nlevels):
         if got.shape != (len(levels),) or not np.array_equal(got, np.array(values)):
             rec.violation('array-and-scalar-results-differ', {'levels': levels[:6], 'array': got.tolist()[:6], 'scalar': values[:6]}, case, 'spline_T')
             return
+    # the same levels in every form a caller may hand them over in; the argument comes back
+    # unchanged and a second evaluation of the same object agrees
+    if not argforms.check_forms(rec, T, levels, values, '', case, 'spline_T', 'argument-forms-vs-scalar'):
+        return
     # arrays in arbitrary (non-monotone) order, as a water-level record would be
     for _ in range(2):
         perm = list(range(len(levels)))
